@@ -452,6 +452,8 @@ fn skew_class(s: i64) -> u64 {
 struct Delivered {
     bytes: Vec<u8>,
     is_axfr: bool,
+    /// the bytes carry the `Trailing` tamper (directly or through replays)
+    trailing: bool,
 }
 
 async fn scenario(p: Plan) {
@@ -476,6 +478,7 @@ async fn scenario(p: Plan) {
     let mut next_id = 0x4000u16;
 
     for (si, step) in p.steps.iter().enumerate() {
+        let mut replay_of_trailing = false;
         let (bytes, is_axfr, skew, verifier, tamper_name, sign_name, reply_flip): (Vec<u8>, bool, i64, Option<TSigVerifier>, String, String, Option<u32>) = match step {
             Step::Advance { secs } => {
                 exec::sleep(std::time::Duration::from_secs(*secs)).await;
@@ -485,6 +488,7 @@ async fn scenario(p: Plan) {
             Step::Replay { of, skew_s } => match delivered.get(*of).and_then(|d| d.as_ref()) {
                 Some(d) => {
                     exec::count("fault.replay");
+                    replay_of_trailing = d.trailing;
                     (d.bytes.clone(), d.is_axfr, *skew_s, None, "Replay".into(), "replayed".into(), None)
                 }
                 None => {
@@ -519,7 +523,7 @@ async fn scenario(p: Plan) {
                 (b, true, *skew_s, v, tn, format!("{sign:?}"), *reply_flip)
             }
         };
-        delivered.push(Some(Delivered { bytes: bytes.clone(), is_axfr }));
+        delivered.push(Some(Delivered { bytes: bytes.clone(), is_axfr, trailing: tamper_name == "Trailing" || replay_of_trailing }));
         net::set_skew_b(skew);
         let server_now = SimTimeB::current_time();
         let verdict = ref_verify(&bytes, &keys, None);
@@ -535,7 +539,10 @@ async fn scenario(p: Plan) {
         let (after, serial_after, _) = server.dump().await;
         let changed = before != after || serial_before != serial_after;
         let rmsg = resp.as_ref().and_then(|b| Message::from_vec(b).ok());
-        let zone_data_returned = rmsg.as_ref().map(|m| is_axfr && !m.answers.is_empty()).unwrap_or(false);
+        // (a tampered byte may have turned the AXFR question into an ordinary one, which needs no
+        // TSIG to be answered: a transfer is what the delivered bytes ask for)
+        let asks_transfer = is_axfr && Message::from_vec(&bytes).map(|m| m.queries.first().map(|q| matches!(q.query_type, RecordType::AXFR | RecordType::IXFR)).unwrap_or(false)).unwrap_or(true);
+        let zone_data_returned = rmsg.as_ref().map(|m| asks_transfer && !m.answers.is_empty()).unwrap_or(false);
         let rc = rmsg.as_ref().map(|m| m.metadata.response_code);
         if let Some(rc) = rc {
             exec::count(&format!("probe.rcode.{rc:?}"));
@@ -575,7 +582,7 @@ async fn scenario(p: Plan) {
         // ---- soundness: an effect needs an authentic, timely request -------------------------
         let axfr_open = is_axfr && p.axfr_policy == 1;
         // bytes after the TSIG RR that the MAC still matches without: one fixed shape
-        let trailing_only = tamper_name == "Trailing" && vname == "tsig-not-last";
+        let trailing_only = (tamper_name == "Trailing" || replay_of_trailing) && vname == "tsig-not-last";
         if changed && !(authentic && (timely || edge)) {
             let shape = if trailing_only { "trailing-bytes-after-tsig".to_string() } else { format!("{tamper_name}:{sign_name}:{vname}") };
             if exec::violate("C13.unauthenticated-update", &shape, format!("step {si}: zone changed ({}) although the request as delivered is {vname} (server clock {server_now})", update::diff_zone(&after, &before))) {
